@@ -245,8 +245,75 @@ class WatchOnlyHistories:
         return {"canon": hist, "viols": viols, "label": label}
 
 
+XOPS = [[w, r, sub] for w in ("full", "wo") for r, sub in (("xkeys", []), ("xkeys", [0]), ("xkeys", [0, 1]), ("group", [0]), ("view", [1]))]
+
+
+class FullAndWatchOnlyHistories:
+    """a FULL wallet and a WATCH-ONLY wallet of the same export node used alternately in one process: whatever the full
+    wallet was asked before, the watch-only wallet must never hand out private data and must keep its own (M) paths; the
+    full wallet must keep giving its private data. canon = the history."""
+
+    def ops(self, hist):
+        return XOPS
+
+    def run(self, hist):
+        wo, full, node, testnet = wallets(0, 2, 0x04B24746)
+        ws = {"full": full, "wo": wo}
+        viols, label = [], "init"
+        for n, (wid, req, sub) in enumerate(hist):
+            w = ws[wid]
+            last = n == len(hist) - 1
+
+            def go():
+                nd = w.master.derive_path(list(sub))
+                if req == "xkeys":
+                    return w.node_extended_keys(nd)
+                if req == "group":
+                    return w.group([nd], w.p2wpkh_address)
+                return public_view(w, nd)
+            st, out = attempt(go)
+            if not last:
+                continue
+            refn = hd.derive(node, sub)
+            if st != "ok":
+                viols.append(V(P + ":full+watch-only-history:raised", "after %r: %s.%s%r raised %s" % (hist[:-1], wid, req, sub, out)))
+            elif req == "xkeys":
+                exp_prv = None if wid == "wo" else hd.xprv(refn, hd.version_for("prv", testnet, 44 if not sub else 44))
+                mark = "M" if wid == "wo" else "m"
+                if wid == "wo" and out.get("prv") is not None:
+                    viols.append(V(P + ":full+watch-only-history:watch-only-got-prv", "after %r in the same process the watch-only wallet's node_extended_keys%r returned prv=%r" % (
+                        hist[:-1], sub, str(out.get("prv"))[:20] + "...")))
+                if not str(out.get("path", "")).startswith(mark):
+                    viols.append(V(P + ":full+watch-only-history:wrong-path-mark", "after %r: %s wallet's path is %r" % (hist[:-1], wid, out.get("path"))))
+                if wid == "full" and not out.get("prv"):
+                    viols.append(V(P + ":full+watch-only-history:full-lost-prv", "after %r the full wallet's node_extended_keys%r has no prv" % (hist[:-1], sub)))
+                raw = __import__("vf.ref.enc", fromlist=["x"]).b58check_decode(out["pub"])
+                if raw[45:] != secp.sec(refn.K):
+                    viols.append(V(P + ":full+watch-only-history:wrong-pub", "after %r: %s pub key of %r wrong" % (hist[:-1], wid, sub)))
+            elif req == "group":
+                row = out[0]
+                if wid == "wo" and row[-1] is not None:
+                    viols.append(V(P + ":full+watch-only-history:watch-only-got-wif", "after %r the watch-only group row ends in %r" % (hist[:-1], row[-1])))
+                if wid == "full" and row[-1] != hd.wif(refn.k, True, testnet):
+                    viols.append(V(P + ":full+watch-only-history:full-wrong-wif", "after %r the full wallet's row WIF is %r" % (hist[:-1], row[-1])))
+                if row[1] != hd.p2wpkh(refn.K, testnet):
+                    viols.append(V(P + ":full+watch-only-history:wrong-address", "after %r: %s address of %r" % (hist[:-1], wid, sub)))
+            else:
+                rv = ref_view(hd.neuter(refn), testnet, sub, None)
+                bad = sorted(k for k in rv if out.get(k) != rv[k])
+                if bad:
+                    viols.append(V(P + ":full+watch-only-history:view-differs", "after %r: %s view of %r differs in %r" % (hist[:-1], wid, sub, bad)))
+            label = "violation" if viols else "answer-ok"
+        return {"canon": hist, "viols": viols, "label": label}
+
+
 def execute(case):
     k = case.get("k")
+    if "hist" in case and case.get("layer") == "full-and-watch-only-histories":
+        r = isolated(FullAndWatchOnlyHistories().run, case["hist"])
+        for v in r["viols"]:
+            v["case"] = case
+        return R(r["label"], viols=r["viols"])
     if k == "refusals":
         vs, n = chk_refusals(case["seed"], case["export"], case["version"])
         return R("violation" if vs else "refusals-and-secrecy-ok", viols=vs, extra=n)
@@ -294,4 +361,5 @@ def run(ctx):
     cases = [{"k": "refusals", "seed": s, "export": ei, "version": v} for s in range(ns) for ei in range(len(EXPORTS)) for v in PUBV]
     agg = ctx.product("refusals-and-object-graph", cases, execute, chunk=1)
     bfs(ctx, "requests-on-one-watch-only-wallet", WatchOnlyHistories(), 3 if ctx.thorough else 2, chunk=2)
+    bfs(ctx, "full-and-watch-only-histories", FullAndWatchOnlyHistories(), 3 if ctx.thorough else 2, chunk=2)
     return {"export_wallets": n, "object_graph_strings_scanned": sum(agg["x"]), "subpath_alphabet": alpha}
